@@ -164,6 +164,52 @@ def decide(ctx, negated, extra=()):
         ctx.solver.pop()
 
 
+def dual_certificate(forms, target, tally=None, timeout_ms=60000):
+    """GF(2) Farkas query for  (forall x: all forms(x)=0  =>  target(x)=0)  when every form is GF(2)-affine in the
+    symbolic bits: ask the solver for multipliers lam with  target == XOR_i lam_i*forms_i  coefficient by coefficient
+    (constant term included).  sat => the implication holds for every x (trivially, by substituting);
+    unsat/unknown => nothing is concluded here (the caller keeps its direct query's verdict).
+    Returns (True, lam) | (False, None) | (None, None)."""
+    fs = []
+    for f in forms:
+        if isinstance(f, S.Aff):
+            fs.append(f)
+        elif isinstance(f, (int, bool)) or (isinstance(f, float) and f in (0.0, 1.0)):
+            fs.append(S.Aff(frozenset(), int(f)))
+        else:
+            return None, None
+    if isinstance(target, (int, bool)):
+        target = S.Aff(frozenset(), int(target))
+    if not isinstance(target, S.Aff):
+        return None, None
+    lam = [z3.Bool(f"lam!{i}") for i in range(len(fs))]
+    s = z3.Solver()
+    s.set("timeout", timeout_ms)
+    atoms = set(target.vs)
+    for f in fs:
+        atoms |= f.vs
+
+    def xr(sel, want):
+        if not sel:
+            return z3.BoolVal(not want)
+        e = sel[0]
+        for l in sel[1:]:
+            e = z3.Xor(e, l)
+        return e if want else z3.Not(e)
+
+    for v in sorted(atoms):
+        s.add(xr([l for l, f in zip(lam, fs) if v in f.vs], v in target.vs))
+    s.add(xr([l for l, f in zip(lam, fs) if f.c], bool(target.c)))
+    t0 = time.time()
+    r = s.check()
+    if tally is not None:
+        tally.count(str(r), time.time() - t0)
+    if r == z3.sat:
+        m = s.model()
+        return True, [1 if z3.is_true(m.eval(l, model_completion=True)) else 0 for l in lam]
+    return (False, None) if r == z3.unsat else (None, None)
+
+
 def decide_nra(ctx, negated, extra=(), budget_s=40):
     """like decide(), for non-linear real obligations: fresh solver per obligation and a small portfolio
     (default solver, then the nlsat tactic, then a reseeded default), because z3's incremental NRA is erratic"""
@@ -179,6 +225,96 @@ def decide_nra(ctx, negated, extra=(), budget_s=40):
             s = z3.Tactic("qfnra-nlsat").solver()
         s.set("timeout", int(budget_s * share * 1000))
         s.add(*base)
+        t0 = time.time()
+        try:
+            r = s.check()
+        except z3.Z3Exception:
+            r = z3.unknown
+        if ctx.tally is not None:
+            ctx.tally.count(str(r), time.time() - t0)
+        if r == z3.unsat:
+            return "holds", None
+        if r == z3.sat:
+            return "violated", s.model()
+    return "inconclusive", None
+
+
+_NAMES = {}
+
+
+def names_of(e):
+    """names of the uninterpreted constants of a z3 expression"""
+    k = e.get_id()
+    if k in _NAMES:
+        return _NAMES[k][1]
+    out, seen, stack = set(), set(), [e]
+    while stack:
+        t = stack.pop()
+        i = t.get_id()
+        if i in seen:
+            continue
+        seen.add(i)
+        if z3.is_const(t) and t.decl().kind() == z3.Z3_OP_UNINTERPRETED:
+            out.add(str(t))
+        else:
+            stack.extend(t.children())
+    if len(_NAMES) > 50000:
+        _NAMES.clear()
+    _NAMES[k] = (e, out)      # keeps e alive: a z3 ast id is reused once the ast is freed
+    return out
+
+
+def decide_any(ctx, bads, extra=(), budget_s=40, defined=()):
+    """decide the disjunction of `bads` one disjunct at a time (each on its own cone of influence):
+    'violated' with the first model found, 'holds' when every disjunct is unsat, otherwise 'inconclusive'"""
+    worst, lost = "holds", 0.0
+    for b in bads:
+        if z3.is_false(b):
+            continue
+        if lost > 2 * budget_s:
+            return "inconclusive", None        # the obligation is open anyway: do not burn the budget of every disjunct
+        t0 = time.time()
+        st, m = decide_nra_sliced(ctx, b, defined, budget_s, extra)
+        if st == "violated":
+            return st, m
+        if st == "inconclusive":
+            worst = st
+            lost += time.time() - t0
+    return worst, None
+
+
+def decide_nra_sliced(ctx, negated, defined=(), budget_s=40, extra=()):
+    """decide_nra on the cone of influence of the obligation: the path condition, the non-definitional side
+    constraints, and only those purification definitions (u*b = a, s*s = r, ...) whose variable the obligation
+    reaches, transitively; definedness conditions are assumed when they speak about reached variables only.
+    Dropping constraints can only add models, so 'holds' is sound; a model is confirmed by the caller's replay."""
+    ctx._sync()
+    base = list(ctx.pc) + [c for c in ctx.side if c.get_id() not in S._DEF_IDS] + list(extra)
+    seen, work, chosen, cids = set(), [], [], set()
+    for e in base + [negated]:
+        work.extend(names_of(e))
+    while work:
+        v = work.pop()
+        if v in seen:
+            continue
+        seen.add(v)
+        for c in S._DEF_CONS.get(v, ()):
+            if c.get_id() not in cids:
+                cids.add(c.get_id())
+                chosen.append(c)
+                work.extend(names_of(c))
+    dd = [d for d in defined if names_of(d) <= seen]
+    full = base + chosen + dd + [negated]
+    attempts = [("default", 0, 0.25), ("nlsat", 0, 0.45), ("default", 7, 0.3)]
+    for kind, seed, share in attempts:
+        if kind == "default":
+            s = z3.Solver()
+            if seed:
+                s.set("random_seed", seed)
+        else:
+            s = z3.Tactic("qfnra-nlsat").solver()
+        s.set("timeout", int(budget_s * share * 1000))
+        s.add(*full)
         t0 = time.time()
         try:
             r = s.check()
